@@ -67,6 +67,7 @@ class TRef:
     def __init__(self, name):
         self.name, self.fd, self.range, self.length = name, None, None, None
         self.pats, self.enums, self.bits, self.path, self.idbase, self.members = [], [], [], None, None, []
+        self.exts = []      # extension substatements "pfx:ident [arg]" (text only: transparent for the resolved type)
         # steering info (not part of the input)
         self.kind, self.depth, self.target = None, 0, None
 
@@ -99,6 +100,8 @@ class TRef:
             subs.append("base %s;" % self.idbase)
         for m in self.members:
             subs.append(m.render(ind + 1))
+        for i, x in enumerate(self.exts):
+            subs.insert(min(len(subs), 2 * i), x + ";")
         if not subs:
             return "type %s;" % self.name
         pad = "  " * (ind + 1)
@@ -526,7 +529,21 @@ class Gen:
                 for _ in range(rnd.randint(1, 2)):
                     t.members.append(self.make_ref(S, scope, nest + 1))
 
+    def add_exts(self, scope, t):
+        """extension substatements of the type statement, with every prefix this text declares: its own (the
+        belongs-to prefix in a submodule) and its imports'"""
+        rnd = self.rnd
+        if rnd.random() < 0.25:
+            pfs = [scope.mod.prefix] * 2 + [p_ for p_, _ in scope.mod.imports]
+            for _ in range(rnd.choice([1, 1, 2])):
+                kw = rnd.choice(pfs) + ":" + rnd.choice(["note", "posix-pattern", "meta-1"])
+                t.exts.append(kw + rnd.choice(["", ' "x"', ' "^a b$"']))
+        return t
+
     def make_ref(self, S, scope, nest=0, maxdepth=MAXCHAIN):
+        return self.add_exts(scope, self.make_ref0(S, scope, nest, maxdepth))
+
+    def make_ref0(self, S, scope, nest=0, maxdepth=MAXCHAIN):
         rnd = self.rnd
         cs = self.candidates(S, scope, maxdepth) if rnd.random() < 0.75 else []
         if not cs:
@@ -1047,6 +1064,19 @@ def corpus():
     lf(n, "l6", ref("me:percent"))              # belongs-to prefix in a submodule
     lf(s0.top, "l7", ref("me:percent"))         # top level of the whole module: m0's
     out.append(("own-prefix-scoped", False, Schema([m0, s0])))
+    # extension substatements of type statements: own prefix, belongs-to prefix in a submodule, imported prefix
+    m0 = mod("m0", "p")
+    m0.includes = ["s0"]
+    m0.imports = [("oc-ext", "ext")]
+    td(m0.top, "base", ref("string", pats=["a"], exts=['p:note "x"', 'oc-ext:posix-pattern "^a$"']), units="u")
+    lf(m0.top, "l1", ref("base", exts=["p:note"]))
+    s0 = mod("s0", "sp", True, "m0")
+    s0.imports = [("e", "ext")]
+    td(s0.top, "sub", ref("sp:base", exts=['sp:note "x"']), default="d")
+    lf(s0.top, "l2", ref("sub", exts=['e:posix-pattern "^b$"', "sp:meta"]))
+    lf(s0.top, "l3", ref("union", members=[ref("sp:sub", exts=["sp:note"]), ref("int8", exts=['sp:note "y"'])]))
+    ext = mod("ext", "x")
+    out.append(("type-extensions", False, Schema([m0, s0, ext])))
     # a later typedef of the same name in the same scope replaces the earlier one in the dictionary
     m0 = mod("m0", "p")
     td(m0.top, "t0", ref("nosuch"))
@@ -1438,6 +1468,21 @@ def run(res, tier, seed, proof):
     mism = 0
     obs = {}
     nleaves = 0
+    # read-then-scribble: the enum / bit containers a resolved type hands out are the caller's; writing to them must
+    # not change what any leaf of the family carries (oracle on the implementation alone)
+    scr = [c for c in cases if c[1] is False and c[5] == 0 and not c[0].startswith(("history", "pinned"))]
+    scr = scr[:(220 if tier == "quick" else 3000)]
+    scr_lines = ["c09scribble %d %s" % (len(c[4]), " ".join("%s %s" % (hx(n_), hx(t_)) for n_, t_ in c[4])) for c in scr]
+    nscr = 0
+    for c, o in zip(scr, lib.run_go(scr_lines, cwd=tmp)):
+        if o.startswith("same"):
+            nscr += int(o.split()[2])
+            continue
+        mism += 1
+        if mism <= 3:
+            res.violation("scribbling on NameMap()/ValueMap() of a resolved type changed a leaf's type (%s): %s"
+                          % (c[0], o[:500]),
+                          dict(kind="scribble", label=c[0], go_case=scr_lines[scr.index(c)], texts=c[4], why=o[:2000]))
     for c, g, m in zip(cases, go, ml):
         label, intent, gl, mll, texts, nbad, exp = c
         why, o = compare(g, m, intent, nbad)
@@ -1466,7 +1511,7 @@ def run(res, tier, seed, proof):
              "typedef names from a pool of 5 (+ built-in names), references unprefixed / own prefix / import prefix / "
              "built-in, chains up to 6, attributes at random links) + single-fault variants; every generated schema "
              "is non-trivial (at least one derived type is resolved)",
-        exhaustive=False, mismatches=mism, leaves_compared=nleaves,
+        exhaustive=False, mismatches=mism, leaves_compared=nleaves, scribbled_schemas=len(scr), scribbled_maps=nscr,
         distribution=dict(hist, observations=obs),
         samples=[cases[0][4][0][1][:600], cases[mid][4][0][1][:600]],
         sample_observations=[go[0][:400], ml[0][:400]],
@@ -1487,12 +1532,21 @@ def run(res, tier, seed, proof):
         "and compared with the implementation directly -- an oracle on the implementation, not model-backed; the "
         "model (FindModule with revision-date) is compared on the same cases too",
         "every submodule is reachable through include statements from its module, every import names a loaded module",
+        "extension substatements of type statements use only prefixes the text declares; they do not change the "
+        "resolved type (the model does not carry them)",
     ]
     return cov, assumptions
 
 
 def replay(rep, res):
     tmp = tempfile.mkdtemp(prefix="c09cwd")
+    if rep.get("kind") == "scribble":
+        o = lib.run_go([rep["go_case"]], cwd=tmp)[0]
+        for n, t in rep.get("texts", []):
+            print("---- " + n)
+            print(t)
+        print("impl :", o[:3000])
+        return 0 if o.startswith("same") else 1
     go = lib.run_go([rep["go_case"]], cwd=tmp)[0]
     ml = lib.run_ml([rep["ml_case"]])[0]
     for n, t in rep.get("texts", []):
